@@ -147,17 +147,26 @@ Definition union_m (this that : val) : res (val * val) :=
   | Some l => rdo r <- union_loop this l; Ok (r, union_after this r)
   | None => Stuck
   end.
-(* maps: for k := range that { union[k] = struct{}{} }; return union   (writes into the first map;
-   assignment to an entry of a nil map panics) *)
+(* maps (after fix C14-fix-union-nil-map):
+     if union == nil { union = make(map[T]struct{}, len(that)) }
+     for k := range that { union[k] = struct{}{} }; return union
+   writes into the first map unless that is nil *)
 Definition union_map_m (ord : list val -> list val) (this that : val) : res val :=
   match map_keys that with
   | None => Stuck
   | Some ks2 =>
       match this with
-      | VNilM => match ks2 with [] => Ok VNilM | _ :: _ => Pan end
+      | VNilM => Ok (VMap fl (unit_entries (fold_left map_insert (ord ks2) [])))
       | VMap l kvs => Ok (VMap l (unit_entries (fold_left map_insert (ord ks2) (map fst kvs))))
       | _ => Stuck
       end
+  end.
+(* the pinned tree, before the fix: assignment to an entry of a nil map panics *)
+Definition union_map_old_m (ord : list val -> list val) (this that : val) : res val :=
+  match this, map_keys that with
+  | VNilM, Some (_ :: _) => Pan
+  | VNilM, Some [] => Ok VNilM
+  | _, _ => union_map_m ord this that
   end.
 
 (* ---------- plugin/intersect ----------
